@@ -4,7 +4,7 @@ Emits plain `def`s (namespace SpsdkVerif.Generated.Sb31Consts):
   * the EnumCmdTag members (14 commands + NONE), BaseCmd.TAG, TAG_TO_CLASS coverage,
   * every struct format the export path packs with (as lists of field widths, little-endian flag),
     HEADER magic / version / description length / sizes, DATA_CHUNK_LENGTH, alignment constants of the
-    command exports, the hash-locking tail, the fuse word size, HAS_MEMORY_ID_BLOCK per load class,
+    command exports, the hash-locking tail, the fuse word size, effective HAS_MEMORY_ID_BLOCK per concrete load-like class,
   * small integer functions translated from the property bodies: `certBlockOffset h`, `blockSize h`,
     `keyLenOfHash`, image type values, and -- from `SecureBinary31Header.update` -- the value of
     `image_total_length` after an export as a function of its OLD value (`updTotalLength old h cert`):
@@ -440,9 +440,23 @@ def gen_Sb31Consts():
             except (ValueError, SyntaxError, TypeError):
                 pass
     d("fuseWordSize", fw, "CmdProgFuses.__init__: self.length //= n")
+    # effective HAS_MEMORY_ID_BLOCK of every concrete load-like class (class attribute resolved through the bases)
+    def eff_attr(cname, attr, depth=0):
+        c = _cls(cmd, cname)
+        if c is None or depth > 6:
+            return None
+        v = class_consts(c).get(attr)
+        if v is not None:
+            return v
+        for b in c.bases:
+            if isinstance(b, ast.Name):
+                r = eff_attr(b.id, attr, depth + 1)
+                if r is not None:
+                    return r
+        return None
     mem = []
-    for cname in ("CmdLoadBase", "CmdLoad", "CmdLoadCmac", "CmdLoadHashLocking", "CmdProgFuses", "CmdProgIfr"):
-        v = class_consts(_cls(cmd, cname)).get("HAS_MEMORY_ID_BLOCK")
+    for cname in ("CmdLoad", "CmdLoadCmac", "CmdLoadHashLocking", "CmdProgFuses", "CmdProgIfr"):
+        v = eff_attr(cname, "HAS_MEMORY_ID_BLOCK")
         if v is not None:
             mem.append((cname, bool(v)))
     L.append(f"def hasMemIdBlock : List (String × Bool) := [{', '.join(f'(\"{a}\", {str(b).lower()})' for a, b in mem)}]")
